@@ -43,6 +43,12 @@ LEVEL_TEXT += (
     " Added after the seeding phase: (L2) tolocal / fromlocal / inverse / "
     "addition, (L4) the ElementVector constructor and (L6) asm are "
     "decided by symbolic runs instead of text comparison.")
+LEVEL_TEXT += (
+    " Added in the hunting round (defects found by independent agents "
+    "on the unchanged tree, DESIGN.md 9.4 / 9.6): "
+    "local axes of N-tensors follow the index rows; tolocal(basis) adds "
+    "each facet matrix to its owner cell; functionals over basis lists; "
+    "composite padding; bmat.blocks.")
 LEVEL_NOTE = (
     "Trusted: numpy reshape/moveaxis/flatten/split/cumsum semantics. The "
     "@-composite (equal_dofnum) branch of CompositeBasis is outside the "
